@@ -72,7 +72,14 @@ def check_plan(reader, D, pl, allocator=None):
     blocks = []
     yielded = 0
     try:
-        for nread, ii, arr in reader.read_plan(**kwargs):
+        if pl.get("positional"):
+            # the plan as the property writes it: read_plan(gulp, start, nsamps, skipback), arguments by position
+            pos = [kwargs.pop(k) for k in ("gulp", "start", "nsamps", "skipback")]
+            plan_iter = reader.read_plan(*pos, **kwargs)
+            labels.append("positional_arguments")
+        else:
+            plan_iter = reader.read_plan(**kwargs)
+        for nread, ii, arr in plan_iter:
             require(isinstance(arr, np.ndarray) and arr.ndim == 1, "block:not-1d-array")
             blocks.append((int(nread), int(ii), arr.copy()))
             yielded += 1
@@ -243,6 +250,8 @@ def strat_random(tier):
         for pl in plans:
             if draw(st.integers(0, 4)) == 0:
                 pl["np_ints"] = True
+            if draw(st.integers(0, 3)) == 0:
+                pl["positional"] = True
         return {"layout": lay, "plans": plans, "np_alloc": draw(st.sampled_from([False, False, False, True])),
                 # opened by relative names, the process then moves to a directory holding same-named other files
                 "relpath": draw(st.sampled_from([False, False, False, True])),
